@@ -23,7 +23,8 @@ fn main() {
     let verif = PathBuf::from(std::env::var("VERIF_DIR").unwrap_or_else(|_| "/verif".into()));
     let repo = PathBuf::from(std::env::var("VERIF_REPO").unwrap_or_else(|_| "/repo".into()));
     let seed: u64 = std::env::var("VERIF_SEED").ok().and_then(|s| s.trim().parse::<i128>().ok()).map(|v| v as u64).unwrap_or(1);
-    let env = Env { work: verif.join("work"), verif, repo, seed };
+    let work = std::env::var("VERIF_WORK").map(PathBuf::from).unwrap_or_else(|_| verif.join("work"));
+    let env = Env { work, verif, repo, seed };
     std::fs::create_dir_all(&env.work).ok();
     let code = match args.get(1).map(|s| s.as_str()) {
         Some("setup") => rt::setup(&env),
